@@ -84,33 +84,6 @@ theorem eager_done_no_task (fix : Fix) (b : VBody) (F : Futs)
   obtain ⟨h1, h2⟩ := eager_start_done fix b F h
   exact ⟨_, _, _, h1, rfl, by rw [h2], by rw [h2], by rw [h2]⟩
 
-theorem split_run (es : List Ev) :
-    Ev.run ∉ es ∨ ∃ pre post, es = pre ++ Ev.run :: post ∧ Ev.run ∉ pre := by
-  induction es with
-  | nil => left; simp
-  | cons e es ih =>
-    by_cases he : e = .run
-    · right; exact ⟨[], es, by simp [he], by simp⟩
-    · rcases ih with h | ⟨pre, post, h1, h2⟩
-      · left; simp [h]
-        exact fun h' => he h'.symm
-      · right
-        refine ⟨e :: pre, post, by simp [h1], ?_⟩
-        simp [h2]
-        exact fun h' => he h'.symm
-
-theorem runK_append {κ : Type} (c : CStep κ) (s : K κ) (a b : List Ev) :
-    runK c s (a ++ b) = runK c (runK c s a) b := by
-  simp [runK, List.foldl_append]
-
-theorem mid_cases (mc : Bool) (held : Y) (F : Futs) :
-    (mid mc held F = [] ∨ mid mc held F = [.cancel] ∨ mid mc held F = [.cancel, .run])
-    ∧ (mid mc held F ≠ [] ↔ mc = true) := by
-  cases mc
-  · simp [mid]
-  · cases held <;> simp [mid]
-    split <;> simp
-
 /-- **Equivalence with the plain Task.**  For every body, every initial state of the futures and
     every sequence of environment events (futures resolved / failed / cancelled, flags cleared by
     other awaiters, `cancel()`, loop iterations, in any order): the eager run ends with the same
